@@ -313,6 +313,35 @@ func c05Units(ctx *core.Ctx) []core.Unit {
 			}
 		}})
 	}
+	us = append(us, core.Unit{Name: "MultiScalar over SRS prefixes of odd lengths under many CPU counts agrees with Commit", Run: func(ctx *core.Ctx, r *core.Result) {
+		needRef()
+		c := conf()
+		if !vsched.Instrumented {
+			r.Note("seam", "unavailable (fallback flavour)")
+			return
+		}
+		defer setCPU(0)
+		full := frsFromBig(pick(polyAlphabet(ctx.Seed), 12).V)
+		for _, cpu := range []int{1, 2, 3, 16, 17, 48, 64, 65, 128, 300, 1024} {
+			for _, L := range []int{1, 2, 3, 5, 77, 131, 254, 255, 256} {
+				v := full[:L]
+				setCPU(0)
+				want := c.Commit(v)
+				setCPU(cpu)
+				var ms banderwagon.Element
+				var err error
+				in := fmt.Sprintf("MultiScalar(SRS[:%d], prf0[:%d]) NumCPU=%d", L, L, cpu)
+				if !timed(r, "c05.panic", "ipa.MultiScalar", in, func() { ms, err = ipa.MultiScalar(c.SRS[:L], v) }) {
+					return
+				}
+				r.Evals++
+				r.Nontrivial++
+				if err != nil || !ms.Equal(&want) || ms.Bytes() != want.Bytes() {
+					vio(r, "c05.multiscalar", "ipa.MultiScalar", in, fmt.Sprintf("the table-based commitment of the same vector: %x", want.Bytes()), fmt.Sprintf("%x err=%v", ms.Bytes(), err))
+				}
+			}
+		}
+	}})
 	us = append(us, core.Unit{Name: "linearity, single-coefficient update, agreement with MultiScalar", Run: func(ctx *core.Ctx, r *core.Result) {
 		needRef()
 		c := conf()
